@@ -279,6 +279,13 @@ def main(argv=None):
         elif not res or res.get("error"):
             checker_errors.append(f"bounded check of {q} failed to run: {str(res)[:300]}")
 
+    # recorded findings the bounded drivers ran into (they skip them and name the witness class)
+    for b in bounded:
+        for w in ((b.get("result") or {}).get("known") or []):
+            for kf in known:
+                if kf.get("kind") == "known" and kf.get("witness") == w and not any(k is kf for k, _ in known_hits):
+                    known_hits.append((kf, kf.get("obligation", b["function"] + "#bounded")))
+
     for u in undecided:
         print(f"UNDECIDED-PROOF property={pid} function={u['function']} obligation={u.get('obligation', '-')} reason={str(u['reason'])[:200]}")
     for kf, name in known_hits:
